@@ -1505,6 +1505,45 @@ func (d *drv) runMalformed() {
 
 // ---------------------------------------------------------------- main
 
+// runBrokenConfig: the audience of a signed token is compared with the
+// server's canonical host, which comes from config.json.  While that file
+// cannot be read the server does not know its own name: a token that names
+// ANOTHER server as its audience must not be accepted in the meantime, in
+// particular not right after a start (no configuration loaded before) or
+// after the file was absent.  Monitors only.
+func (d *drv) runBrokenConfig() {
+	d.hist("broken-config")
+	absent := filepath.Join(d.tmp, "data-absent")
+	os.MkdirAll(absent, 0700)
+	for i, content := range []string{
+		`{"canonicalHost": "galene.org:8443", "writeableGroups": true}`, // a misspelt field
+		`{"canonicalHost": "galene.org:8443", "users": {"root": {"password":`, // cut in mid-write
+		`{"canonicalHost": "galene.org:8443"} trailing`,
+	} {
+		dir := filepath.Join(d.tmp, fmt.Sprintf("data-broken%d", i))
+		os.MkdirAll(dir, 0700)
+		os.WriteFile(filepath.Join(dir, "config.json"), []byte(content), 0600)
+		for _, aud := range []string{"https://evil.org:8443/group/a/", "https://galene.org:8443/group/a/"} {
+			// forget whatever was loaded: the file is absent for one read
+			group.DataDirectory = absent
+			group.GetConfiguration()
+			group.DataDirectory = dir
+			c := d.goodCase()
+			c.aud = aud
+			ts := d.signedSpec(c)
+			cred, keys, _, _ := d.realize(ts, time.Now())
+			desc := &group.Description{AuthKeys: keys, Users: map[string]group.UserDescription{}}
+			_, _, err := desc.GetPermission("a", group.ClientCredentials{Token: cred})
+			d.t.Checked("C09.audience_with_unreadable_config")
+			if err == nil && strings.Contains(aud, "evil.org") {
+				d.t.Fail("C09", "audience_with_unreadable_config", fmt.Sprintf("config.json names the canonical host galene.org:8443 but cannot be decoded (%q); a signed token whose audience is %s (another server) was accepted for group a", content, aud))
+			}
+		}
+	}
+	d.setHost("")
+	group.GetConfiguration()
+}
+
 func runToken(t *tr.Trace, r *tr.Rand, n int) {
 	tmp, err := os.MkdirTemp("", "verif-token-")
 	if err != nil {
@@ -1531,6 +1570,7 @@ func runToken(t *tr.Trace, r *tr.Rand, n int) {
 	d.runPermission()
 	d.runGlobalAdmin()
 	d.runMalformed()
+	d.runBrokenConfig()
 	rounds := 1 + n/1000
 	if rounds > 4 {
 		rounds = 4
